@@ -50,6 +50,8 @@ func probeMain(args []string) {
 	seed := fs.Int64("seed", 1, "")
 	n := fs.Int("n", 100, "")
 	size := fs.Int("size", 25, "")
+	fam := fs.String("fam", "", "family: shadow|regdep|memwalk|tails|memdep|hot|stress (default: generic)")
+	idxMod := fs.Int("idxmod", -1, "with -fam: only case indexes with idx%4 == idxmod")
 	only := fs.String("only", "", "")
 	par := fs.String("par", "2", "parallelism list for 6.x+ (eu=wu)")
 	mem := fs.Bool("mem", true, "")
@@ -93,7 +95,28 @@ func probeMain(args []string) {
 	disc := 0
 	for i := 0; i < *n; i++ {
 		r := caseRand(*seed, "probe", i)
-		in := genProgram(r, genCfg{N: *size, Mem: *mem, Branch: *br, Jumps: *jumps, Loops: *loops, Ret: true, EndLabel: true, MemSize: *memsize, NData: *ndata, NAddr: 3, DivRem: true, SubWord: true, UseRa: true})
+		var in caseInput
+		if *idxMod >= 0 && i%4 != *idxMod {
+			continue
+		}
+		switch *fam {
+		case "shadow":
+			in = famShadow(r, i)
+		case "regdep":
+			in = famRegdep(r, i)
+		case "memwalk":
+			in = famMemwalk(r, i)
+		case "tails":
+			in = famTails(r, i)
+		case "memdep":
+			in = famMemdep(r, i)
+		case "hot":
+			in = famHot(r, i)
+		case "stress":
+			in = famStressTerm(r, i)
+		default:
+			in = genProgram(r, genCfg{N: *size, Mem: *mem, Branch: *br, Jumps: *jumps, Loops: *loops, Ret: true, EndLabel: true, MemSize: *memsize, NData: *ndata, NAddr: 3, DivRem: true, SubWord: true, UseRa: true})
+		}
 		out := diffCase(in, cfgs, diffOpts{Prop: "probe", Lockstep: true})
 		if out.Discarded {
 			disc++
@@ -195,6 +218,7 @@ func oneMain(args []string) {
 	regs := fs.String("regs", "", "name=value,...")
 	memsize := fs.Int("memsize", 1024, "")
 	reps := fs.Int("reps", 1, "")
+	zeroMem := fs.Bool("zeromem", false, "")
 	save := fs.String("save", "", "write a witness file for the first finding")
 	kfid := fs.String("id", "", "")
 	fam := fs.String("family", "", "")
@@ -210,6 +234,9 @@ func oneMain(args []string) {
 	in := caseInput{Src: string(b), Mem: make([]int8, *memsize)}
 	for i := range in.Mem {
 		in.Mem[i] = int8(i*7 + 1)
+		if *zeroMem {
+			in.Mem[i] = 0
+		}
 	}
 	for _, kv := range strings.Split(*regs, ",") {
 		if kv == "" {
